@@ -395,6 +395,7 @@ SUBCHECKS = {
         describe="_unique_sheet_name on every sequence of names from a tricky alphabet",
         rule="case = sequence; non-trivial = a repeated or over-long name occurs",
         cases=name_cases, run=name_run,
+        requires=("OpenPinch.utils.export:_unique_sheet_name",),
         bound=lambda t: ("all sequences of <=3 of 12 names" if t == "quick" else "all sequences of <=4 of 12 names") + " + runs of 9..12 and 101 repetitions of each name",
     ),
     "workbook": SubCheck(
